@@ -236,7 +236,9 @@ func (its *PushPullHandler) reserveUpdateSnapshot(ctx iface.OrdaContext) error {
 }
 
 func (its *PushPullHandler) commitToMongoDB() errors.OrdaError {
-	its.datatypeDoc.Sseq.End = its.currentCP.Sseq
+	if !its.isReadOnly { // a read-only request pushes nothing: the end of the log does not move
+		its.datatypeDoc.Sseq.End = its.currentCP.Sseq
+	}
 	its.resPushPullPack.CheckPoint = its.currentCP
 	its.subClientDoc.UpdateAt()
 	if len(its.pushingOperations) > 0 {
